@@ -76,13 +76,13 @@ def gen_cases(tier, seed):
     rng = np.random.default_rng([seed, 19])
     q = tier == "quick"
     cases = []
-    for rep in range(220 if q else 2200):
+    for rep in range(220 if q else 20000):
         cases.append({"type": "series", "s": int(rng.integers(1 << 30)), "group": "ser%d" % (rep % 16)})
-    for rep in range(40 if q else 400):
+    for rep in range(40 if q else 4000):
         cases.append({"type": "outliers", "s": int(rng.integers(1 << 30)), "group": "out%d" % (rep % 16)})
-    for rep in range(30 if q else 300):
+    for rep in range(30 if q else 3000):
         cases.append({"type": "jackknife", "s": int(rng.integers(1 << 30)), "group": "jk%d" % (rep % 16)})
-    for rep in range(8 if q else 48):
+    for rep in range(8 if q else 240):
         cases.append({"type": "ensemble", "kind": "iid" if rep % 2 == 0 else "ar1", "s": int(rng.integers(1 << 30)),
                       "group": "ens%d" % rep, "cost": 40})
     for wt, ad in (("rhf", None), ("uhf", "reverse")) if q else (("rhf", None), ("uhf", "reverse"), ("uhf", "forward"), ("rhf", "reverse")):
